@@ -39,7 +39,7 @@ CHECKS = {
  "C02": dict(cat="model_checking", sec="5 C02",
    text="The C02 statements (ContentKept, ReplicasUntouched with sub-groups from Partition.tla, OutsideUntouched, LinkOpsPreserveReads, MoveKeepsBytes) are TLA+ predicates "
         "(DedupeObs.tla) evaluated by TLC on complete inventories observed before/after real `group | <op>` pipelines over seeded random trees: several groups, hard-link sets, "
-        "relative/absolute symlinks reported with -S, --isolate, --match-links, hostile file names with decoys, text and JSON reports, five operations, pre-populated move targets.",
+        "relative/absolute symlinks reported with -S, --isolate, --match-links, hostile file names with decoys, text and JSON reports, five operations, pre-populated move targets. Dedupe.tla composes group ; remove over four paths with links and two-hop link chains across isolate roots; TLC checks ContentKept / NoDangling with the repair of partition() (Rescue) and must refute them without it.",
    note="content identity = SHA-256; the dangerous -H -S combination is not generated; reflink runs natively (fails, must change nothing)",
    tech="TLC-evaluated property predicates on observed inventories of randomized real runs"),
  "C11": dict(cat="model_checking", sec="5 C11",
